@@ -96,6 +96,11 @@ type isMismatch struct {
 	Pos      int    `json:"pos"`
 	Expected bool   `json:"expected"`
 	Observed bool   `json:"observed"`
+	// the queries that were asked on the same set before this one (in order): Contains must be a pure function of the
+	// collection, so the replay first asks the query alone and, if that agrees, again after these
+	QCodes []string `json:"qcodes,omitempty"`
+	MaxPos int      `json:"maxpos,omitempty"`
+	K      int      `json:"k,omitempty"`
 }
 
 func ignoresetReplay(args []string) int {
@@ -164,7 +169,7 @@ func ignoresetReplay(args []string) int {
 						got := set.Contains(c, token.Pos(p))
 						lq++
 						if got != (j.bits[k] == 1) && len(lm) < 20 {
-							lm = append(lm, isMismatch{Ops: ops, Code: c, Pos: p, Expected: j.bits[k] == 1, Observed: got})
+							lm = append(lm, isMismatch{Ops: ops, Code: c, Pos: p, Expected: j.bits[k] == 1, Observed: got, QCodes: qc, MaxPos: *maxPos, K: k})
 						}
 					}
 				}
@@ -264,6 +269,21 @@ func ignoresetReplayOne(path string) int {
 	fmt.Printf("{\"observed\":%v,\"expected\":%v}\n", got, m.Expected)
 	if got != m.Expected {
 		return 1
+	}
+	if len(m.QCodes) > 0 {
+		// in context: the same set, the same earlier queries in the same order, then the query
+		set2 := &util.IgnoreSet{}
+		for _, op := range m.Ops {
+			applyOp(set2, op)
+		}
+		for k := 0; k < m.K; k++ {
+			set2.Contains(m.QCodes[k/(m.MaxPos+2)], token.Pos(k%(m.MaxPos+2)))
+		}
+		got2 := set2.Contains(m.Code, token.Pos(m.Pos))
+		fmt.Printf("{\"observed_after_%d_earlier_queries\":%v,\"expected\":%v}\n", m.K, got2, m.Expected)
+		if got2 != m.Expected {
+			return 1
+		}
 	}
 	return 0
 }
